@@ -18,15 +18,18 @@ package main
 
 // Every handler reports its start and its end to the monitor with a (blocking) send of +1 / -1: the
 // monitor's count can only return to zero if no report is ever dropped.
+// (the monitor's channels are never closed: a send on a closed channel would panic)
 //@ func (*termMonitor).onHandlerStart(m) ()
 //@   serves C19
-//@   requires m != nil
+//@   requires m != nil && !chanclosed(m.handlerChan)
+//@   ensures !chanclosed(m.handlerChan)
 //@   modifies star(m.handlerChan), blocked
 //@   ensures [C19:start_is_reported] sentcount(m.handlerChan) == old(sentcount(m.handlerChan)) + 1 && sentsum(m.handlerChan) == old(sentsum(m.handlerChan)) + 1
 
 //@ func (*termMonitor).onHandlerFinish(m) ()
 //@   serves C19
-//@   requires m != nil
+//@   requires m != nil && !chanclosed(m.handlerChan)
+//@   ensures !chanclosed(m.handlerChan)
 //@   modifies star(m.handlerChan), blocked
 //@   ensures [C19:finish_is_reported] sentcount(m.handlerChan) == old(sentcount(m.handlerChan)) + 1 && sentsum(m.handlerChan) == old(sentsum(m.handlerChan)) - 1
 
@@ -35,16 +38,16 @@ package main
 // when its copy ends, and reports exactly one result.
 //@ func copyLoop$1() ()
 //@   serves C19
-//@   requires a != nil && b != nil && payload(a) != nil && payload(b) != nil && errChan != nil && outside(a, &wg) && outside(b, &wg) && outside(&a, a) && outside(&a, b) && outside(&b, a) && outside(&b, b) && outside(&a, &wg) && outside(&b, &wg) && outside(&errChan, a) && outside(&errChan, b) && outside(&errChan, &wg)
+//@   requires a != nil && b != nil && payload(a) != nil && payload(b) != nil && errChan != nil && !chanclosed(errChan) && outside(a, &wg) && outside(b, &wg) && outside(&a, a) && outside(&a, b) && outside(&b, a) && outside(&b, b) && outside(&a, &wg) && outside(&b, &wg) && outside(&errChan, a) && outside(&errChan, b) && outside(&errChan, &wg)
 //@   modifies a.*, b.*, wg.*, star(errChan), blocked
 //@   assert_at io.Copy#1 [C19:upstream_is_copied_by_io_copy] arg0 == b && arg1 == a
 //@   ensures [C19:both_sides_torn_down_together] a.closed && b.closed
-//@   ensures [C19:one_result_reported] sentcount(errChan) == old(sentcount(errChan)) + 1
+//@   ensures [C19:one_result_reported] sentcount(errChan) == old(sentcount(errChan)) + 1 && !chanclosed(errChan)
 
 //@ func copyLoop$2() ()
 //@   serves C19
-//@   requires a != nil && b != nil && payload(a) != nil && payload(b) != nil && errChan != nil && outside(a, &wg) && outside(b, &wg) && outside(&a, a) && outside(&a, b) && outside(&b, a) && outside(&b, b) && outside(&a, &wg) && outside(&b, &wg) && outside(&errChan, a) && outside(&errChan, b) && outside(&errChan, &wg)
+//@   requires a != nil && b != nil && payload(a) != nil && payload(b) != nil && errChan != nil && !chanclosed(errChan) && outside(a, &wg) && outside(b, &wg) && outside(&a, a) && outside(&a, b) && outside(&b, a) && outside(&b, b) && outside(&a, &wg) && outside(&b, &wg) && outside(&errChan, a) && outside(&errChan, b) && outside(&errChan, &wg)
 //@   modifies a.*, b.*, wg.*, star(errChan), blocked
 //@   assert_at io.Copy#1 [C19:downstream_is_copied_by_io_copy] arg0 == a && arg1 == b
 //@   ensures [C19:both_sides_torn_down_together] a.closed && b.closed
-//@   ensures [C19:one_result_reported] sentcount(errChan) == old(sentcount(errChan)) + 1
+//@   ensures [C19:one_result_reported] sentcount(errChan) == old(sentcount(errChan)) + 1 && !chanclosed(errChan)
